@@ -15,6 +15,9 @@ def check(ctx: Ctx) -> None:
     S.r_spawner_registry_who(ctx, "R07.7")
     from .elemtrack import r_spawner_kept
     r_spawner_kept(ctx, "R07.8")
+    # completeness premise: cancel_group / cancel_all find a task only through the register filed in the table under its group
+    from .naming import r_register_membership
+    r_register_membership(ctx, "R07.9")
 
 
 def r_group_table_who(ctx: Ctx, rule: str) -> None:
